@@ -83,6 +83,13 @@ def run_shard(shard):
         c = shard["replay"]
         if "recipe" in c:
             check_recipe(acc, probe, c["recipe"], c["version"], c["mode"], tuple(c["opts"]), [c["ctx"]] if c.get("ctx") else [], seen)
+        elif c.get("source") in ("statement_position_probe", "typed_store_probe", "operand_type_probe", "typed_join_probe"):
+            # probe families are re-run from fixed seeds (they are cheap): the witness is found again if the defect is still there
+            from ..common import rng_for as _rf
+            fam = {"statement_position_probe": statement_position_probes, "typed_store_probe": typed_store_probes,
+                   "operand_type_probe": operand_type_probes, "typed_join_probe": typed_join_probes}[c["source"]]
+            for k in range(4):
+                fam(pt, acc, seen, _rf(k, "c05-replay"), 400)
         elif c.get("source") == "catalogue":
             from .. import opcatalog
             ent = next(e for e in opcatalog.entries(pt) if e[0] == c["desc"]["entry"])
